@@ -41,7 +41,7 @@ func Lexemes(kind string) []Lexeme {
 	case "integer", "int64", "int32":
 		var out []Lexeme
 		acc := []string{"0", "7", "-1", "42", "2147483647", "-2147483648"}
-		rej := []string{"", "abc", "1x", "--1", " 1", "1 ", "1.5", "1e3", "0x10", "1_000", "९", "99999999999999999999", "-99999999999999999999"}
+		rej := []string{"", "abc", "null", "1x", "--1", " 1", "1 ", "1.5", "1e3", "0x10", "1_000", "९", "99999999999999999999", "-99999999999999999999"}
 		if kind == "int32" {
 			rej = append(rej, "2147483648", "-2147483649", "9223372036854775807")
 		} else {
